@@ -227,6 +227,31 @@ def sample_stage(rep, impl, stats):
             elif r["rc"] == 0:
                 rep.finding("accepted:" + nm, "# ACCEPTED (rc 0) although it breaks a static rule\n" + src)
         stats["known_accepted_probes"] = len(kfiles)
+    # element-type matrix: for every ordered pair of distinct scalar types, an array / tuple / function value / array variable over
+    # the first where the second is declared — arguments, and assignment.  Element types are compared exactly (no promotion inside
+    # containers): every one of the programs must be refused with a diagnostic at the offending line (line 5).
+    import itertools
+    TY = {"bool": ("true", "false"), "int": ("1", "2"), "long": ("1L", "2L"), "float": ("1.5", "2.5"), "double": ("1.5d", "2.5d"), "char": ("'a'", "'b'"), "string": ('"a"', '"b"')}
+    msrc, mname = [], []
+    for t1, t2 in itertools.permutations(TY, 2):
+        v1, v2 = TY[t1]
+        forms = {
+            "arr": "func first(a[D] : %s) -> int { 0 }\nfunc main() -> int\n{\n    let x = [ %s, %s ] : %s;\n    first(x)\n}\n" % (t2, v1, v2, t1),
+            "tup": "func first(t : (%s, %s)) -> int { 0 }\nfunc main() -> int\n{\n    let x = (%s, %s) : (%s, %s);\n    first(x)\n}\n" % (t2, t2, v1, v2, t1, t1),
+            "fun": "func apply(f(x : %s) -> %s) -> int { 0 }\nfunc g(x : %s) -> %s { x }\nfunc main() -> int\n{\n    apply(g)\n}\n" % (t2, t2, t1, t1),
+            "ass": "func main() -> int\n{\n    var a = [ %s ] : %s;\n    let b = [ %s ] : %s;\n    a = b;\n    0\n}\n" % (TY[t2][0], t2, v1, t1)}
+        for k, src in forms.items():
+            msrc.append(src); mname.append("elem_%s_%s_as_%s" % (k, t1, t2))
+    mbad = 0
+    for n, src, r in zip(mname, msrc, impl.run(msrc)):
+        if r["crash"] is not None:
+            mbad += 1; capped("matrix_" + n, "# %s crashes the compiler: %s\n%s" % (n, r["crash"], src), True)
+        elif r["rc"] == 0:
+            mbad += 1; capped("matrix_" + n, "# element-type mismatch ACCEPTED (rc 0): %s\n%s" % (n, src), True)
+        elif not any(k == "error" and ln == 5 for (ln, k, t) in r["msgs"]):
+            mbad += 1; capped("matrix_" + n, "# element-type mismatch refused without a diagnostic at the offending line 5: %s\n# got %s\n%s" % (n, r["msgs"][:4], src), True)
+    stats["element_type_matrix"] = len(msrc)
+    stats["element_type_matrix_bad"] = mbad
     stats["samples_run"] = len(names)
     stats["samples_bad"] = bad
     stats["sample_error_lines"] = sum(len(e) for e in exps)
